@@ -198,6 +198,63 @@ Definition wf_run (ms : list modsrc) (pt : pytable) : bool :=
   stars_keep_children ms pt && submodules_recorded ms pt && sources_not_rebound ms pt.
 
 (* ------------------------------------------------------------------------------------------------------------ *)
+(* the side condition of the real-traversal theorem (Proofs/C05_realw.v), and table equality                      *)
+(* ------------------------------------------------------------------------------------------------------------ *)
+(* every wildcard import of the module names a module of the table *)
+Definition stars_resolveb (t : table) (top : string) (ms : list (string * member)) : bool :=
+  forallb (fun nm => match snd nm with
+                     | MAlias tgt _ true => match lookup_path t top tgt with
+                                            | LMod q => match get_mod t q with Some _ => true | None => false end
+                                            | _ => false
+                                            end
+                     | _ => true
+                     end) ms.
+
+Fixpoint ok_runb (fl : nat) (top : string) (order : list path) (t : table) : bool :=
+  match order with
+  | [] => true
+  | m :: r => match get_mod t m with Some st => stars_resolveb t top (members st) | None => true end
+              && ok_runb fl top r (sched_wild_step fl top t m)
+  end.
+
+Fixpoint list_eqb {A} (eqb : A -> A -> bool) (a b : list A) : bool :=
+  match a, b with
+  | [], [] => true
+  | x :: a', y :: b' => eqb x y && list_eqb eqb a' b'
+  | _, _ => false
+  end.
+Definition item_struct_eqb (a b : item) : bool :=
+  match a, b with
+  | IStr x, IStr y => String.eqb x y
+  | IRef l1 a1, IRef l2 a2 => String.eqb l1 l2 && Bool.eqb a1 a2
+  | _, _ => false
+  end.
+Definition modst_eqb (a b : modst) : bool :=
+  list_eqb (fun x y => String.eqb (fst x) (fst y) && member_eqb (snd x) (snd y)) (members a) (members b)
+  && list_eqb String.eqb (imports a) (imports b)
+  && match exports a, exports b with
+     | None, None => true
+     | Some x, Some y => list_eqb item_struct_eqb x y
+     | _, _ => false
+     end.
+Definition table_eqb (a b : table) : bool :=
+  list_eqb (fun x y => path_eqb (fst x) (fst y) && modst_eqb (snd x) (snd y)) a b.
+
+(* no __all__ statement of the program refers to another list: every item is a string *)
+Definition strings_only (its : list item) : bool := forallb (fun it => match it with IStr _ => true | IRef _ _ => false end) its.
+Definition no_refsb (ms : list modsrc) : bool := forallb (fun m => forallb (fun s => strings_only (items_of s)) (ms_body m)) ms.
+
+(* the order in which the wildcard phase of griffe_load completes the modules *)
+Definition load_wild_order (top : string) (ms : list modsrc) : list path :=
+  match expx (total_fuel ms) top [top] (mkX (initial_table ms) [] false [] [] [] []) with
+  | Done x => match expw (total_fuel ms) top [top] (mkW (xt x) [] [] [] (xunsup x) [] []) with
+              | Done w => rev (wdone w)
+              | _ => []
+              end
+  | _ => []
+  end.
+
+(* ------------------------------------------------------------------------------------------------------------ *)
 (* dispatcher                                                                                                    *)
 (* ------------------------------------------------------------------------------------------------------------ *)
 Definition run_C05w (s : sexp) : sexp :=
@@ -212,6 +269,34 @@ Definition run_C05w (s : sexp) : sexp :=
           | PErr e => SList [SStr "err"; of_bool st; SStr e]
           end
       | _, _ => bad_input
+      end
+  | SList [SStr "phases"; SStr top; ms] =>
+      (* griffe_load's two phases against the schedule steps along their completion orders (C05_load_phases_explicit) *)
+      match as_list_of dec_module ms with
+      | Some ms' =>
+          let t0 := initial_table ms' in
+          let fl := S (List.length ms' * 8 + 64) in
+          match expx (total_fuel ms') top [top] (mkX t0 [] false [] [] [] []) with
+          | Done x =>
+              match expw (total_fuel ms') top [top] (mkW (xt x) [] [] [] (xunsup x) [] []) with
+              | Done w =>
+                  let ox := rev (xdone x) in
+                  let ow := rev (wdone w) in
+                  let tx := fold_left (sched_exports_step fl top) ox t0 in
+                  (* the hypotheses and the conclusion of C05_real_traversal_agrees (Proofs/C05_norefs.v) *)
+                  let rt := match py_import ms' ow [] with
+                            | POk pt => [of_bool (no_refsb ms'); of_bool (wf_prog top ms' ow); of_bool true; of_bool (wf_run ms' pt);
+                                         of_bool (agreeb top (wt w) pt)]
+                            | PErr _ => [of_bool (no_refsb ms'); of_bool (wf_prog top ms' ow); of_bool false; of_bool false; of_bool false]
+                            end in
+                  SList [SStr "ok"; of_bool (table_eqb (xt x) tx); of_bool (ok_runb fl top ow tx);
+                         of_bool (table_eqb (wt w) (fold_left (sched_wild_step fl top) ow tx));
+                         enc_paths ox; enc_paths ow; SList rt]
+              | _ => SList [SStr "no-result"]
+              end
+          | _ => SList [SStr "no-result"]
+          end
+      | None => bad_input
       end
   | _ => run_C05 s
   end.
